@@ -656,7 +656,10 @@ def gen_border_ratio(rng):
     """Ratios whose numerator or denominator is -2^62 / 2^62 (the fixnum/bignum border), as operand and as result."""
     d = rng.choice([3, 5, 7, 1048577, (1 << 64) + 1, (1 << 31) - 1])
     t = rng.choice([Fraction(FIXMIN, d), Fraction(FIXMAX + 1, d), Fraction(d, FIXMAX + 1), Fraction(-d, FIXMAX + 1),
-                    Fraction(FIXMIN + 1, d), Fraction(FIXMAX, d)])
+                    Fraction(FIXMIN + 1, d), Fraction(FIXMAX, d),
+                    # remainders whose double is +-2^62 (rounding doubles the remainder before comparing it)
+                    Fraction(-(1 << 61), 3740041238768767123), Fraction(1 << 61, 3740041238768767123),
+                    Fraction(-(1 << 61), (1 << 62) - d), Fraction(5 * ((1 << 62) - 3) - (1 << 61), (1 << 62) - 3)])
     u = rng.choice([Fraction(1), Fraction(-1), Fraction(1, d), Fraction(-2, d), Fraction(5), Fraction(rng.randrange(1, 99), d),
                     Fraction(1 << 64), Fraction(-3, 1 << 62)])
     op = rng.choice(BORDER_OPS)
